@@ -5,6 +5,7 @@ import (
 	"encoding/hex"
 	"encoding/xml"
 	"fmt"
+	"net/url"
 	"sort"
 	"strings"
 	"time"
@@ -631,4 +632,67 @@ func canonOrder(toks []xml.Token) []xml.Token {
 		out = append(out, r.start.End())
 	}
 	return out
+}
+
+// ---- URLs -------------------------------------------------------------------------------
+//
+// A URL value is built component by component (RFC 3986: scheme, userinfo, host, port, path,
+// query, fragment; plus the opaque and the relative-reference forms) and parsed with
+// url.Parse — the way every caller of the exported API obtains a *url.URL.  Every component
+// is a choice point of its own, so the exhaustive part enumerates the combinations and a
+// codec that treats one component differently on the way in and on the way out (a fragment
+// parsed as part of the path, a query that loses its "?", escaped path octets decoded twice,
+// credentials dropped) meets a value that shows it.
+var (
+	urlSchemes   = []string{"https://", "http://", "", "//", "mailto:"}
+	urlUsers     = []string{"", "u@", "u:p%40w@", ":@"}
+	urlHosts     = []string{"example.net", "[::1]:8080", "xn--bcher-kva.example:443", "EXAMPLE.net.", ""}
+	urlPaths     = []string{"/up/a%20b", "", "/", "/é", "/a%2Fb/c", "/a;p=1/..//b", "/x:y@z"}
+	urlQueries   = []string{"", "?x=1&y=<2>", "?", "?token=xyz", "?a=b%26c&&=", "?q=é+%2B"}
+	urlFragments = []string{"", "#k=0123456789abcdef", "#", "#a%20b/é?x", "#part-1"}
+)
+
+// url returns nil (1 in 6) or a parsed URL reference.
+func (g *gen) url() *url.URL {
+	if g.intn(6) == 1 {
+		return nil
+	}
+	scheme := urlSchemes[g.intn(len(urlSchemes))]
+	user := urlUsers[g.intn(len(urlUsers))]
+	host := urlHosts[g.intn(len(urlHosts))]
+	path := urlPaths[g.intn(len(urlPaths))]
+	query := urlQueries[g.intn(len(urlQueries))]
+	frag := urlFragments[g.intn(len(urlFragments))]
+	var raw string
+	switch scheme {
+	case "mailto:": // opaque form: no authority
+		raw = scheme + "user@example.net" + query + frag
+	case "": // relative reference: no authority either
+		raw = path + query + frag
+	default:
+		if host == "" {
+			user = ""
+		}
+		raw = scheme + user + host + path + query + frag
+	}
+	u, err := url.Parse(raw)
+	if err != nil || u == nil {
+		u, _ = url.Parse("https://example.net/fallback" + query + frag)
+	}
+	return u
+}
+
+// canonURL renders a URL component by component (nil and the empty reference are the same
+// value: both are written as url="" / no URL): two URLs are equivalent when every component
+// a client can observe and the printed form agree.
+func canonURL(u *url.URL) string {
+	if u == nil || *u == (url.URL{}) {
+		return ""
+	}
+	user := ""
+	if u.User != nil {
+		user = u.User.String() + "@"
+	}
+	return fmt.Sprintf("%q{scheme=%q opaque=%q user=%q host=%q path=%q escpath=%q forceq=%v query=%q frag=%q escfrag=%q}",
+		u.String(), u.Scheme, u.Opaque, user, u.Host, u.Path, u.EscapedPath(), u.ForceQuery, u.RawQuery, u.Fragment, u.EscapedFragment())
 }
